@@ -279,55 +279,7 @@ func rulesRejectOnly(c *Ctx, r *Report, root *ssa.Function, rootName string, cfg
 		}
 		return cfg.lit(l, immediate)
 	}
-	// blockAccepted(target): every forward path from the function's entry to target takes a documented-reason edge
-	blockAccepted := func(target *ssa.BasicBlock) (bool, string) {
-		memo := map[*ssa.BasicBlock]int{} // 1 in progress, 2 yes, 3 no
-		why := map[*ssa.BasicBlock]string{}
-		var accepted func(b *ssa.BasicBlock) bool
-		accepted = func(b *ssa.BasicBlock) bool {
-			switch memo[b] {
-			case 2:
-				return true
-			case 3, 1:
-				return false
-			}
-			memo[b] = 1
-			res := false
-			var reasons []string
-			if len(b.Preds) > 0 {
-				res = true
-				for _, p := range b.Preds {
-					if b.Dominates(p) { // back edge
-						continue
-					}
-					okEdge := false
-					if iff, isIf := lastInstr(p).(*ssa.If); isIf && p.Succs[0] != p.Succs[1] {
-						if rs, ok := reasonOf(edgeLit{iff.Cond, p.Succs[0] == b}, b == target); ok {
-							okEdge = true
-							reasons = append(reasons, rs)
-						}
-					}
-					if !okEdge {
-						if accepted(p) {
-							reasons = append(reasons, why[p])
-						} else {
-							res = false
-						}
-					}
-				}
-			}
-			if res {
-				memo[b] = 2
-				sort.Strings(reasons)
-				why[b] = strings.Join(dedupe(reasons), " | ")
-			} else {
-				memo[b] = 3
-			}
-			return res
-		}
-		ok := accepted(target)
-		return ok, why[target]
-	}
+	blockAccepted := func(target *ssa.BasicBlock) (bool, string) { return pathsAllTake(target, reasonOf) }
 	// acceptedAt: the same for an instruction; for a helper without a reason of its own the question moves to every
 	// one of its call sites in the family (two levels).
 	var acceptedAt func(in ssa.Instruction, depth int) (bool, string)
@@ -819,8 +771,9 @@ func rulesStackOps(c *Ctx, r *Report) {
 		r.undecided("STACK-OPS", "formats/newick.(*Node).traverse", "anchor", "", "traverse with one iterator literal not found")
 		return
 	}
-	f := outer.AnonFuncs[0]
-	where := fname(f)
+	lit := outer.AnonFuncs[0]
+	where := fname(lit)
+	f, _, _ := c.delegatedBody(lit)
 	// the stack: a loop-header phi of slice-of-module-struct type
 	var phi *ssa.Phi
 	for _, b := range f.Blocks {
@@ -1048,4 +1001,553 @@ func rulesEntryPoints(c *Ctx, r *Report, rels ...string) {
 	rulesFileDelegation(c, r)
 	rulesReaderEntry(c, r)
 	rulesOpenedHandle(c, r)
+	rulesNoTranscoder(c, r)
+}
+
+// ---------------------------------------------------------------------------------------------------------------
+// Rules added after held-out round 6
+
+// rulesNoTranscoder (LAYER): the codec packages read and write the bytes as they are: no decompressor, archive or
+// character-set decoder is constructed there (decompression by file suffix belongs to gostuff aio.Open, behind File).
+func rulesNoTranscoder(c *Ctx, r *Report) {
+	var bad []string
+	n := 0
+	for _, f := range formatFuncs(c) {
+		instrs(f, func(in ssa.Instruction) {
+			ci, ok := in.(ssa.CallInstruction)
+			if !ok {
+				return
+			}
+			g := ci.Common().StaticCallee()
+			if g == nil || g.Pkg == nil {
+				return
+			}
+			n++
+			p := g.Pkg.Pkg.Path()
+			if strings.HasPrefix(p, "compress/") || strings.HasPrefix(p, "archive/") || strings.HasPrefix(p, "golang.org/x/text") || p == "encoding/base64" {
+				bad = append(bad, qname(g)+" at "+c.pos(in.Pos()))
+			}
+		})
+	}
+	sort.Strings(bad)
+	pos := ""
+	r.check(len(bad) == 0, "LAYER", "formats/*", "bytes taken as they are", pos,
+		fmt.Sprintf("no decompressor or transcoder is constructed in the codec packages (%d static calls examined): what Reader decodes is the stream's own bytes, whatever they start with", n),
+		"a decompressor/transcoder is constructed in a codec package ("+strings.Join(bad, "; ")+"): the bytes decoded depend on what the content looks like, so records whose text happens to look like that are not read back")
+}
+
+// rulesNoFloatToInt (NUM-KIND): in the given packages no floating-point value is converted to an integer: an
+// integer column parsed through a float loses values beyond 2^53 and accepts fractions.
+func rulesNoFloatToInt(c *Ctx, r *Report, rels ...string) {
+	want := map[string]bool{}
+	for _, rel := range rels {
+		want[modPath+"/"+rel] = true
+	}
+	var bad []string
+	n := 0
+	for _, f := range c.moduleFuncs() {
+		if !want[funcPkgPath(f)] {
+			continue
+		}
+		instrs(f, func(in ssa.Instruction) {
+			cv, ok := in.(*ssa.Convert)
+			if !ok {
+				return
+			}
+			n++
+			from, ok1 := cv.X.Type().Underlying().(*types.Basic)
+			to, ok2 := cv.Type().Underlying().(*types.Basic)
+			if ok1 && ok2 && from.Info()&types.IsFloat != 0 && to.Info()&types.IsInteger != 0 {
+				bad = append(bad, fname(f)+" at "+c.pos(cv.Pos()))
+			}
+		})
+	}
+	sort.Strings(bad)
+	r.check(len(bad) == 0, "NUM-KIND", strings.Join(rels, ","), "no float-to-integer conversion", "",
+		fmt.Sprintf("no floating-point value is converted to an integer (%d conversions examined): integer columns are parsed and written as integers", n),
+		"a floating-point value is converted to an integer ("+strings.Join(bad, "; ")+"): integers beyond 2^53 do not survive, fractions are accepted and truncated")
+}
+
+// rulesWriterErrOrigin (W-ERR): every error a Write method returns is nil, or the error of a call that was handed the
+// writer (directly or through a helper of the package), or — where the format documents a refusal — an error
+// constructed behind that documented reason. A sentinel (io.ErrShortWrite …) or a constructed error anywhere else
+// makes Write fail although the writer accepted everything.
+func rulesWriterErrOrigin(c *Ctx, r *Report, rel, method string, documented func(l edgeLit) (string, bool)) {
+	w := c.fn(rel, method)
+	where := rel + "." + method
+	if w == nil {
+		r.undecided("W-ERR", where, "anchor", "", "Write not found")
+		return
+	}
+	r.analysed(where)
+	var wparam ssa.Value
+	for _, p := range w.Params {
+		if isIOWriter(p.Type()) {
+			wparam = p
+		}
+	}
+	if wparam == nil {
+		r.undecided("W-ERR", where, "writer parameter", c.pos(w.Pos()), "no io.Writer parameter")
+		return
+	}
+	// functions of the package that receive the writer (helpers), transitively one level
+	takesWriter := func(cl *ssa.Call, wv func(ssa.Value) bool) bool {
+		if cl.Call.IsInvoke() {
+			return wv(cl.Call.Value)
+		}
+		for _, a := range cl.Call.Args {
+			if wv(a) {
+				return true
+			}
+		}
+		return false
+	}
+	var check func(f *ssa.Function, isW func(ssa.Value) bool, depth int) []string
+	check = func(f *ssa.Function, isW func(ssa.Value) bool, depth int) []string {
+		var bad []string
+		instrs(f, func(in ssa.Instruction) {
+			rt, ok := in.(*ssa.Return)
+			if !ok {
+				return
+			}
+			for _, op := range retOperands(rt) {
+				if !isErrorType(op.Type()) {
+					continue
+				}
+				var origins []ssa.Value
+				seen := map[ssa.Value]bool{}
+				var walk func(v ssa.Value)
+				walk = func(v ssa.Value) {
+					if seen[v] {
+						return
+					}
+					seen[v] = true
+					switch x := v.(type) {
+					case *ssa.Phi:
+						for _, e := range x.Edges {
+							walk(e)
+						}
+					case *ssa.Extract:
+						walk(x.Tuple)
+					case *ssa.UnOp:
+						if al, isAl := x.X.(*ssa.Alloc); isAl && x.Op == token.MUL {
+							for _, ref := range *al.Referrers() {
+								if st, isSt := ref.(*ssa.Store); isSt && st.Addr == ssa.Value(al) {
+									walk(st.Val)
+								}
+							}
+							return
+						}
+						origins = append(origins, v)
+					default:
+						origins = append(origins, v)
+					}
+				}
+				walk(op)
+				for _, o := range origins {
+					if isNilConst(o) {
+						continue
+					}
+					cl, isCall := o.(*ssa.Call)
+					if !isCall {
+						bad = append(bad, "a value that is not the result of a write ("+c.pos(rt.Pos())+")")
+						continue
+					}
+					g := cl.Call.StaticCallee()
+					if isErrConstructor(g) {
+						// a refusal: only behind the documented reason
+						okDoc := false
+						if documented != nil {
+							okDoc, _ = pathsAllTake(cl.Block(), func(l edgeLit, _ bool) (string, bool) { return documented(l) })
+						}
+						if !okDoc {
+							bad = append(bad, "an error constructed at "+c.pos(cl.Pos())+" outside the documented refusals")
+						}
+						continue
+					}
+					if takesWriter(cl, isW) {
+						if g != nil && g.Blocks != nil && c.inModule(g) && depth < 2 && !cl.Call.IsInvoke() {
+							// a helper of the module: same question inside, for its writer parameter
+							for i, a := range cl.Call.Args {
+								if isW(a) && i < len(g.Params) {
+									p := g.Params[i]
+									bad = append(bad, check(g, func(v ssa.Value) bool { return v == ssa.Value(p) }, depth+1)...)
+								}
+							}
+						}
+						continue
+					}
+					// a function of the module that was not handed the writer (newick: Write = MarshalText + one w.Write):
+					// whatever error it can return is judged the same way — there is no writer inside it
+					if g != nil && g.Blocks != nil && c.inModule(g) && depth < 2 && !cl.Call.IsInvoke() {
+						bad = append(bad, check(g, func(ssa.Value) bool { return false }, depth+1)...)
+						continue
+					}
+					bad = append(bad, "the error of "+callName(cl)+" at "+c.pos(cl.Pos())+", which was not handed the writer")
+				}
+			}
+		})
+		return bad
+	}
+	bad := check(w, func(v ssa.Value) bool { return unwrapIface(v) == wparam }, 0)
+	sort.Strings(bad)
+	r.check(len(bad) == 0, "W-ERR", where, "errors come from the writer", c.pos(w.Pos()),
+		"every error Write returns is nil, the error of a call that was handed the writer, or a documented refusal: Write returns nil when the writer accepted everything",
+		"Write can return "+strings.Join(dedupe(bad), "; ")+": it fails although the writer accepted every byte")
+}
+
+func isIOWriter(t types.Type) bool {
+	n, ok := t.(*types.Named)
+	return ok && n.Obj().Pkg() != nil && n.Obj().Pkg().Path() == "io" && n.Obj().Name() == "Writer"
+}
+
+// bedNRange: the documented refusal of BED.Write: N outside 3..12.
+func bedNRange(l edgeLit) (string, bool) {
+	if x, kind, k, ok := cmpCanon(l); ok {
+		if ld, isLd := x.(*ssa.UnOp); isLd && ld.Op == token.MUL {
+			if fa, isFa := ld.X.(*ssa.FieldAddr); isFa && fa.Field == 0 {
+				if (kind == "le" && k == 2) || (kind == "ge" && k == 13) {
+					return "N outside 3..12", true
+				}
+			}
+		}
+	}
+	return "", false
+}
+
+// pathsAllTake: every forward path from the function's entry to target takes an edge that reasonOf accepts.
+func pathsAllTake(target *ssa.BasicBlock, reasonOf func(l edgeLit, immediate bool) (string, bool)) (bool, string) {
+	memo := map[*ssa.BasicBlock]int{} // 1 in progress, 2 yes, 3 no
+	why := map[*ssa.BasicBlock]string{}
+	var accepted func(b *ssa.BasicBlock) bool
+	accepted = func(b *ssa.BasicBlock) bool {
+		switch memo[b] {
+		case 2:
+			return true
+		case 3, 1:
+			return false
+		}
+		memo[b] = 1
+		res := false
+		var reasons []string
+		if len(b.Preds) > 0 {
+			res = true
+			for _, p := range b.Preds {
+				if b.Dominates(p) { // back edge
+					continue
+				}
+				okEdge := false
+				if iff, isIf := lastInstr(p).(*ssa.If); isIf && p.Succs[0] != p.Succs[1] {
+					if rs, ok := reasonOf(edgeLit{iff.Cond, p.Succs[0] == b}, b == target); ok {
+						okEdge = true
+						reasons = append(reasons, rs)
+					}
+				}
+				if !okEdge {
+					if accepted(p) {
+						reasons = append(reasons, why[p])
+					} else {
+						res = false
+					}
+				}
+			}
+		}
+		if res {
+			memo[b] = 2
+			sort.Strings(reasons)
+			why[b] = strings.Join(dedupe(reasons), " | ")
+		} else {
+			memo[b] = 3
+		}
+		return res
+	}
+	ok := accepted(target)
+	return ok, why[target]
+}
+
+// rulesStepsReversed (REV): the traceback collects the steps back to front; before they are returned they are reversed
+// completely: by slices.Reverse, or by a loop that swaps positions p and q with p + q = len-1 kept as an invariant and
+// runs exactly while p < q.
+func rulesStepsReversed(c *Ctx, r *Report) {
+	n := 0
+	for _, spec := range []struct{ name, role string }{{"Global", "align.traceGlobal"}, {"Local", "align.traceLocal"}} {
+		root := c.role(spec.role)
+		if root == nil {
+			r.undecided("REV", "align."+spec.name, "anchor", "", "trace function not found")
+			continue
+		}
+		found := false
+		for _, f := range c.stageFuncs(root) {
+			if ok, desc, why := reversalIn(c, f); ok || why != "" {
+				found = true
+				n++
+				r.analysed(fname(f))
+				r.check(ok, "REV", fname(f), "steps reversed completely", c.pos(f.Pos()), desc, why)
+			}
+		}
+		if !found {
+			r.violated("REV", fname(root), "steps reversed completely", c.pos(root.Pos()), "the steps are collected from the end of the alignment to its start and no reversal (slices.Reverse or a swap loop) precedes the return: the alignment comes out backwards")
+		}
+	}
+	r.floor("REV", n, 2, "reversal of the collected steps in the two traceback functions")
+}
+
+// reversalIn looks for the reversal in f: (true, description, "") when it is complete, (false, "", reason) when a swap
+// loop is there but is not a complete reversal, (false, "", "") when f has no reversal at all.
+func reversalIn(c *Ctx, f *ssa.Function) (bool, string, string) {
+	// slices.Reverse(x)
+	var rev *ssa.Call
+	instrs(f, func(in ssa.Instruction) {
+		if cl, ok := in.(*ssa.Call); ok && cl.Call.StaticCallee() != nil {
+			if o := cl.Call.StaticCallee().Origin(); (o != nil && qname(o) == "slices.Reverse") || qname(cl.Call.StaticCallee()) == "slices.Reverse" {
+				rev = cl
+			}
+		}
+	})
+	if rev != nil {
+		return true, "the steps are reversed by slices.Reverse", ""
+	}
+	s := newSymb(f)
+	// a swap: S[p] = load(S[q]) and S[q] = load(S[p]) in one block
+	type swap struct {
+		base ssa.Value
+		p, q ssa.Value
+		blk  *ssa.BasicBlock
+	}
+	var sw *swap
+	for _, b := range f.Blocks {
+		var sts []*ssa.Store
+		for _, in := range b.Instrs {
+			if st, ok := in.(*ssa.Store); ok {
+				if _, ok := st.Addr.(*ssa.IndexAddr); ok {
+					sts = append(sts, st)
+				}
+			}
+		}
+		for _, a := range sts {
+			for _, bb := range sts {
+				if a == bb {
+					continue
+				}
+				ia, ib := a.Addr.(*ssa.IndexAddr), bb.Addr.(*ssa.IndexAddr)
+				la, okA := a.Val.(*ssa.UnOp)
+				lb, okB := bb.Val.(*ssa.UnOp)
+				if !okA || !okB || ia.X != ib.X {
+					continue
+				}
+				sa, okA := la.X.(*ssa.IndexAddr)
+				sb, okB := lb.X.(*ssa.IndexAddr)
+				if !okA || !okB || sa.X != ia.X || sb.X != ia.X {
+					continue
+				}
+				if s.expr(sa.Index).String() == s.expr(ib.Index).String() && s.expr(sb.Index).String() == s.expr(ia.Index).String() {
+					sw = &swap{ia.X, ia.Index, ib.Index, b}
+				}
+			}
+		}
+	}
+	if sw == nil {
+		return backFill(c, f, s)
+	}
+	lenS := "builtin:len(" + s.expr(sw.base).String() + ")"
+	p, q := linOf(s.expr(sw.p)), linOf(s.expr(sw.q))
+	// loop variables
+	var phis []*ssa.Phi
+	var header *ssa.BasicBlock
+	for _, b := range f.Blocks {
+		if lp := naturalLoop(b); len(lp) > 1 && lp[sw.blk] {
+			if header == nil || len(lp) < len(naturalLoop(header)) {
+				header = b
+			}
+		}
+	}
+	if header == nil {
+		return false, "", "positions are swapped outside a loop"
+	}
+	for _, in := range header.Instrs {
+		if ph, ok := in.(*ssa.Phi); ok {
+			if bt, ok := ph.Type().Underlying().(*types.Basic); ok && bt.Info()&types.IsInteger != 0 {
+				phis = append(phis, ph)
+			}
+		}
+	}
+	// invariant p + q = len - 1
+	sum := linSub(p, linSub(linForm{coef: map[string]int64{}}, q)) // p + q
+	want := linForm{coef: map[string]int64{lenS: 1}, k: -1}
+	if d := linSub(sum, want); d.String() != "0" {
+		// two cursors: the sum of their starts is len-1 and their steps cancel
+		okInv := false
+		if len(d.coef) > 0 {
+			init := linForm{coef: map[string]int64{}}
+			delta := int64(0)
+			okAll := true
+			for _, ph := range phis {
+				name := s.expr(ph).String()
+				cf := sum.coef[name]
+				if cf == 0 {
+					continue
+				}
+				for k, e := range ph.Edges {
+					if header.Dominates(header.Preds[k]) && header.Preds[k] != header.Idom() && naturalLoop(header)[header.Preds[k]] {
+						st := linSub(linOf(s.expr(e)), linOf(s.expr(ph)))
+						if len(nonZero(st.coef)) != 0 {
+							okAll = false
+						}
+						delta += cf * st.k
+					} else {
+						e2 := linOf(s.expr(e))
+						for kk, vv := range e2.coef {
+							init.coef[kk] += cf * vv
+						}
+						init.k += cf * e2.k
+					}
+				}
+			}
+			// everything in sum that is not a loop variable stays
+			for kk, vv := range sum.coef {
+				isPhi := false
+				for _, ph := range phis {
+					if s.expr(ph).String() == kk {
+						isPhi = true
+					}
+				}
+				if !isPhi {
+					init.coef[kk] += vv
+				}
+			}
+			init.k += sum.k
+			okInv = okAll && delta == 0 && linSub(init, want).String() == "0"
+		}
+		if !okInv {
+			return false, "", "the two positions that are swapped do not add up to len-1 (" + sum.String() + "): they are not mirror images of each other"
+		}
+	}
+	// the loop runs exactly while p < q: its test, as C >= 0, is q - p - 1 >= 0
+	iff, ok := lastInstr(header).(*ssa.If)
+	var C linForm
+	okC := false
+	if ok {
+		if bo, ok := iff.Cond.(*ssa.BinOp); ok && naturalLoop(header)[header.Succs[0]] && !naturalLoop(header)[header.Succs[1]] {
+			a, b := linOf(s.expr(bo.X)), linOf(s.expr(bo.Y))
+			one := linForm{coef: map[string]int64{}, k: 1}
+			switch bo.Op {
+			case token.LSS:
+				C, okC = linSub(linSub(b, a), one), true
+			case token.GTR:
+				C, okC = linSub(linSub(a, b), one), true
+			case token.LEQ:
+				C, okC = linSub(b, a), true
+			case token.GEQ:
+				C, okC = linSub(a, b), true
+			}
+		}
+	}
+	if !okC {
+		// a counted loop in another spelling (range over an integer)
+		for _, ph := range phis {
+			if l, why := findCountedLoop(ph); why == "" {
+				one := linForm{coef: map[string]int64{}, k: 1}
+				C, okC = linSub(linSub(linOf(s.expr(l.bound)), linOf(s.expr(ph))), one), true
+			}
+		}
+	}
+	if !okC {
+		return false, "", "the loop's test is not a comparison this rule can read"
+	}
+	target := linSub(linSub(q, p), linForm{coef: map[string]int64{}, k: 1})
+	// substitute the invariant for a two-cursor form is not needed: C is compared as written; for `i < len/2`:
+	// (len/2) - i - 1 >= 0  <=>  len - 2i - 2 >= 0
+	half := "(" + lenS + " / 2)"
+	if C.coef[half] == 1 {
+		C2 := linForm{coef: map[string]int64{}, k: 2 * C.k}
+		for kk, vv := range C.coef {
+			if kk == half {
+				C2.coef[lenS] += 1
+			} else {
+				C2.coef[kk] += 2 * vv
+			}
+		}
+		C = C2
+	}
+	target2 := linSub(linSub(p, q), linForm{coef: map[string]int64{}, k: 1}) // the same with the two positions named the other way round
+	if linSub(C, target).String() != "0" && linSub(C, target2).String() != "0" {
+		return false, "", fmt.Sprintf("the swap loop runs while %s >= 0, a complete reversal runs exactly while p < q, i.e. while %s >= 0: elements near the middle stay unswapped (or are swapped back)", C.String(), target.String())
+	}
+	// orientation: on entry the test must read len - 2 >= 0 (the outermost pair is swapped first)
+	C0 := linForm{coef: map[string]int64{}, k: C.k}
+	for kk, vv := range C.coef {
+		sub := false
+		for _, ph := range phis {
+			if s.expr(ph).String() != kk {
+				continue
+			}
+			for k, e := range ph.Edges {
+				if !naturalLoop(header)[header.Preds[k]] {
+					e2 := linOf(s.expr(e))
+					for k2, v2 := range e2.coef {
+						C0.coef[k2] += vv * v2
+					}
+					C0.k += vv * e2.k
+					sub = true
+				}
+			}
+		}
+		if !sub {
+			C0.coef[kk] += vv
+		}
+	}
+	if linSub(C0, linForm{coef: map[string]int64{lenS: 1}, k: -2}).String() != "0" {
+		return false, "", "on entry the swap loop's test reads " + C0.String() + " >= 0, want len-2 >= 0: the loop does not start from the outermost pair"
+	}
+	return true, "the steps are reversed by a loop that swaps mirror positions p, q (p + q = len-1) exactly while p < q", ""
+}
+
+// backFill: the other way of getting the steps in order: a buffer of fixed length filled from its end (index
+// decreasing by one per step) and returned from the last index written. Its necessary condition: the buffer holds
+// the longest path through the table, (rows-1) + (columns-1) steps with rows = len(blocks)/bn and columns = bn —
+// its length must be bn + len(blocks)/bn - 2 or more, for every table.
+func backFill(c *Ctx, f *ssa.Function, s *symb) (bool, string, string) {
+	var ret *ssa.Slice
+	instrs(f, func(in ssa.Instruction) {
+		if rt, ok := in.(*ssa.Return); ok {
+			for _, op := range retOperands(rt) {
+				if sl, ok := op.(*ssa.Slice); ok && sl.Low != nil && sl.High == nil {
+					if _, isSlice := sl.X.Type().Underlying().(*types.Slice); isSlice {
+						ret = sl
+					}
+				}
+			}
+		}
+	})
+	if ret == nil {
+		return false, "", ""
+	}
+	mk, ok := ret.X.(*ssa.MakeSlice)
+	if !ok {
+		return false, "", ""
+	}
+	// stores into the buffer by index
+	nSt := 0
+	instrs(f, func(in ssa.Instruction) {
+		if st, ok := in.(*ssa.Store); ok {
+			if ia, ok := st.Addr.(*ssa.IndexAddr); ok && ia.X == ssa.Value(mk) {
+				nSt++
+			}
+		}
+	})
+	if nSt == 0 {
+		return false, "", ""
+	}
+	if len(f.Params) < 2 {
+		return false, "", "steps are written into a fixed-size buffer whose size this rule cannot relate to the table"
+	}
+	L := linOf(s.expr(mk.Len))
+	bn := s.expr(f.Params[1]).String()
+	q := "(builtin:len(" + s.expr(f.Params[0]).String() + ") / " + bn + ")"
+	need := linForm{coef: map[string]int64{bn: 1, q: 1}, k: -2}
+	d := linSub(L, need)
+	if len(nonZero(d.coef)) != 0 || d.k < 0 {
+		return false, "", fmt.Sprintf("the steps are written into a buffer of %s cells, filled from its end; a path through the table has up to bn + len(blocks)/bn - 2 steps (%s): for alignments with gaps on both sides the index runs below 0 and the call panics", L.String(), need.String())
+	}
+	return true, fmt.Sprintf("the steps are written from the end of a buffer of %s cells, which holds the longest path (bn + len(blocks)/bn - 2), and returned from the last index written", L.String()), ""
 }
